@@ -1,5 +1,6 @@
 import Litep2pVerif.Common.Parse
 import Litep2pVerif.Model.Noise.XX
+import Litep2pVerif.Model.Tcp.Poll
 /-! Line-protocol driver for the C01 models (same protocol as /repo/src/verif/c01.rs).
 
 * `pv <payload> <static> vk=<key32> vs=<sig> [h=<sha256 of the key encoding>] vp=<0|1> vf=<0|1>`: checker mode —
@@ -264,10 +265,87 @@ def tp (ts : List String) : String :=
       match r.1 with
       | .ok P _ =>
         (match transportCheck via addr P with
-         | .ok Q => "D=" ++ okWord ++ peerName Q
+         | .ok Q => "D=" ++ okWord ++ peerName Q ++ " ep=" ++ (match endpointAddress via addr with
+            | some [.host .ip4, .tcp] => "ip4" | some [.host .ip6, .tcp] => "ip6" | some [.host .dns, .tcp] => "dns"
+            | some [.host .dns4, .tcp] => "dns4" | some [.host .dns6, .tcp] => "dns6" | _ => "other")
          | .error e => "D=" ++ errWord ++ errClass false e)
       | other => "D=" ++ errWord ++ showRes [] other
   | _, _, _, _, _ => "bad-op"
+
+/-! ### `pn`: `impl Stream for TcpTransport` under an executor (Model/Tcp/Poll.lean) -/
+
+open Litep2pVerif.Tcp.Poll in
+/-- One scripted item `k`: what it adds to the queues and maps. -/
+def pnItem (t : Tcp.Poll.T) (k : Nat) : String → Option Tcp.Poll.T
+  | "ci" => some { t with conns := t.conns ++ [.err k] }
+  | "cf" => some { t with conns := t.conns ++ [.err k], dials := insertId t.dials k }
+  | "cs" => some { t with conns := t.conns ++ [.ok k], dials := insertId t.dials k }
+  | "cn" => some { t with conns := t.conns ++ [.ok k] }
+  | "rf" => some { t with raw := t.raw ++ [.failed k], handles := t.handles ++ [(k, false)] }
+  | "rx" => some { t with raw := t.raw ++ [.failed k], handles := t.handles ++ [(k, true)] }
+  | "rh" => some { t with raw := t.raw ++ [.failed k] }
+  | "rc" => some { t with raw := t.raw ++ [.canceled k], handles := t.handles ++ [(k, true)] }
+  | "ro" => some { t with raw := t.raw ++ [.connected k], handles := t.handles ++ [(k, false)] }
+  | "rA" => some { t with raw := t.raw ++ [.connected k], handles := t.handles ++ [(k, true)] }
+  | "rO" => some { t with raw := t.raw ++ [.connected k] }
+  | _ => none
+
+open Litep2pVerif.Tcp.Poll in
+def pnBuild : List String → Nat → Tcp.Poll.T → Option Tcp.Poll.T
+  | [], _, t => some t
+  | i :: rest, k, t => (pnItem t k i).bind (pnBuild rest (k + 1))
+
+open Litep2pVerif.Tcp.Poll in
+def pnEv : Ev → Option String
+  | .pendingInbound _ => none
+  | .opened k => some s!"CO{k}"
+  | .openFailure k => some s!"OF{k}"
+  | .established k => some s!"CE{k}"
+  | .dialFailure k => some s!"DF{k}"
+
+def pnKeys (n : Nat) (l : List Nat) : String :=
+  joinWith "+" (((List.range n).filter (· ∈ l)).map toString)
+
+open Litep2pVerif.Tcp.Poll in
+def pn (ts : List String) : String :=
+  let small := fun (k : String) (max : Nat) => match arg? k ts with
+    | none => some 0
+    | some s => (s.toNat?).filter (· ≤ max)
+  let items : List String := match arg? "q" ts with
+    | none => []
+    | some "-" => []
+    | some q => q.splitOn ","
+  if ts.any (fun a => !(a.toList.contains '=')) || items.length > 12 then "bad-op" else
+  match small "in" 4, small "acc" 1, small "neg" 1, pnBuild items 0 ({ nextId := 1000 } : Tcp.Poll.T) with
+  | some inb, some _, some neg, some t0 =>
+    let n := items.length
+    let t0 := { t0 with accepted := inb }
+    let (ev1, t1) := drain (size t0 + 1) t0
+    -- every `PendingInboundConnection` is answered (`accept_pending` / `reject_pending`): the entry is consumed once
+    let inbound := ev1.filterMap fun | .pendingInbound id => some id | _ => none
+    let (answered, t1) := inbound.foldl (fun (acc : Nat × Tcp.Poll.T) id =>
+      let r := rejectPending acc.2 id
+      let again := rejectPending r.2 id
+      (if r.1 && !again.1 then acc.1 + 1 else acc.1, again.2)) (0, t1)
+    let (negs, ev2, t2) :=
+      if neg = 1 then
+        let ids := (List.range n).filter (· ∈ t1.opened)
+        let (words, t) := ids.foldl (fun (acc : List String × Tcp.Poll.T) id =>
+          let r := negotiate acc.2 id
+          let again := negotiate r.2 id
+          (acc.1 ++ [s!"neg{id}:" ++ (if r.1 && !again.1 then "ok" else "bad")], again.2)) ([], t1)
+        let (ev2, t2) := drain (size t + 1) t
+        (words, ev2, t2)
+      else ([], [], t1)
+    let held := (List.range n).filter (· ∈ t2.pendingOpen)
+    let verdicts := (held.foldl (fun (acc : Nat × Tcp.Poll.T) id =>
+      let r := reject acc.2 id
+      let again := reject r.2 id
+      (if r.1 && !again.1 then acc.1 + 1 else acc.1, again.2)) (0, t2)).1
+    "ev=[" ++ joinWith "," (ev1.filterMap pnEv ++ negs ++ ev2.filterMap pnEv) ++ s!"] in={inbound.length}:{answered}" ++
+      " dials=[" ++ pnKeys n t2.dials ++ "] handles=[" ++ pnKeys n (t2.handles.map (·.1)) ++
+      "] opened=[" ++ pnKeys n t2.opened ++ "] popen=[" ++ pnKeys n t2.pendingOpen ++ s!"] rej={verdicts} lost={size t2}"
+  | _, _, _, _ => "bad-op"
 
 def step (st : State) (line : String) : State × String :=
   match tokens line with
@@ -276,6 +354,7 @@ def step (st : State) (line : String) : State × String :=
   | "rg" :: rest => (st, rg rest)
   | "nc" :: rest => (st, nc rest)
   | "tp" :: rest => (st, tp rest)
+  | "pn" :: rest => (st, pn rest)
   | _ => (st, "bad-op")
 
 end Litep2pVerif.Driver.C01
